@@ -24,14 +24,37 @@ ODD_KEYS = ["", " ", "é", "0", "ab", "A"]
 SEPS = [".", "__", "/", "->", "..", " ", "|"]
 
 
-def build(tree, optional):
+class StrKey(str):
+    """a plain subclass of str (what a `class Field(str, Enum)` member or a tagged key type is): equal to, and hashing
+    like, the str it wraps"""
+
+
+import enum  # noqa: E402
+
+
+class EnumKey(str, enum.Enum):
+    a = "a"
+    b = "b"
+    c = "c"
+
+
+def wrap_key(key: str, kind):
+    if kind == "strsub":
+        return StrKey(key)
+    if kind == "enum" and key in ("a", "b", "c"):
+        return EnumKey(key)
+    return key
+
+
+def build(tree, optional, keykind=None):
     """tree: list of [key, opt, sub] with sub = int (leaf index) or tree"""
     out = {}
     for key, opt, sub in tree:
+        k = wrap_key(key, keykind)
         if isinstance(sub, int):
-            out[optional(key) if opt else key] = LEAVES[sub]
+            out[optional(k) if opt else k] = LEAVES[sub]
         else:
-            out[key] = build(sub, optional)
+            out[k] = build(sub, optional, keykind)
     return out
 
 
@@ -54,6 +77,8 @@ def canon(m, optional, path=()):
             continue
         opt = isinstance(k, optional)
         kk = k.key if opt else k
+        if isinstance(kk, str):
+            kk = str.__str__(kk)      # a key of a str subclass stands for the str it equals
         if isinstance(v, dict):
             if opt:
                 out.append((path + (kk,), "OPTIONAL-ON-INNER-NODE", 0))
@@ -119,7 +144,8 @@ def check_case(case: Dict[str, Any]) -> List[Tuple[str, str]]:
     from d42 import optional
     from d42.utils import rollout
     tree, sep, order, ell = case["tree"], case["sep"], case.get("order"), case.get("ellipsis", False)
-    m = build(tree, optional)
+    kk = case.get("keykind")
+    m = build(tree, optional, kk)
     flat = flatten(tree, sep)
     if order is not None:
         flat = [flat[i] for i in order]
@@ -129,6 +155,7 @@ def check_case(case: Dict[str, Any]) -> List[Tuple[str, str]]:
     for i, (k, opt, leaf) in enumerate(flat):
         if ell and i == pos:
             flat_d[...] = ...
+        k = wrap_key(k, kk) if sep not in k else (StrKey(k) if kk else k)
         flat_d[optional(k) if opt else k] = LEAVES[leaf]
     if ell and pos >= len(flat):
         flat_d[...] = ...
@@ -144,11 +171,11 @@ def check_case(case: Dict[str, Any]) -> List[Tuple[str, str]]:
     except Exception as e:
         fails.append(("inverse", f"rollout({flat_d!r}, separator={sep!r}) raised {e!r}"))
     try:
-        m2 = build(tree, optional)
+        m2 = build(tree, optional, kk)
         if ell:
             m2[...] = ...
         r2 = rollout(m2, **kw)
-        if not (r2 == m2) or canon(r2, optional) != canon(build(tree, optional) | ({...: ...} if ell else {}), optional):
+        if not (r2 == m2) or canon(r2, optional) != canon(build(tree, optional, kk) | ({...: ...} if ell else {}), optional):
             fails.append(("identity", f"rollout({m2!r}, separator={sep!r}) = {r2!r}, expected the mapping itself"))
     except Exception as e:
         fails.append(("identity", f"rollout of the nested mapping {build(tree, optional)!r} raised {e!r}"))
@@ -180,6 +207,14 @@ def cases(tier: str, seed: int):
         for pos in range(nleaf + 1):
             yield {"tree": t, "sep": ".", "order": list(range(nleaf)), "ellipsis": True, "ellipsis_pos": pos,
                    "default_sep": True, "part": "ellipsis"}
+    # (2b) keys that are instances of str subclasses (a plain subclass, a str-Enum member), bare and wrapped in optional
+    for tree in gen_trees(2, 2, KEYS):
+        nleaf = sum(1 for _ in leaves_of(tree))
+        for mask in (0, (1 << nleaf) - 1, 1):
+            t = decorate(tree, mask, mask)
+            for kind in ("strsub", "enum"):
+                for sep in (".", "__", "/"):
+                    yield {"tree": t, "sep": sep, "order": list(reversed(range(nleaf))), "keykind": kind, "part": "str-subclass-keys"}
     # (3) sampled: depth <= 4, fan-out <= 4, five keys
     n = 4000 if tier == "quick" else 60000
     keys = KEYS + ["d", "ab", "", "é"]
